@@ -1803,7 +1803,9 @@ namespace adept {
 	  storage_->add_link();
 	}
 	if (IsActive) {
-	  internal::GradientIndex<IsActive>::set(data_, storage_);
+	  // The source may be a soft link with no storage object, so
+	  // take its gradient index directly
+	  internal::GradientIndex<IsActive>::set(rhs.gradient_index());
 	}
       }
       return *this;
